@@ -185,7 +185,9 @@ pub fn run_machinery(verbose: bool) -> i32 {
 /// C15 turns them into violations.
 pub fn crate_on_reference_images() -> Vec<(String, String)> {
     let mut out = Vec::new();
-    let tests: [(&str, fn() -> Result<(), String>); 3] = [("crate-reads-repo-image", repo_image_test), ("crate-reads-mkfs-images", mkfs_test), ("fingerprint", fingerprint_test)];
+    // (the fingerprint test is not among them: what the crate's Debug output shows is no property of the crate; see
+    // `note_fingerprint_quality`)
+    let tests: [(&str, fn() -> Result<(), String>); 2] = [("crate-reads-repo-image", repo_image_test), ("crate-reads-mkfs-images", mkfs_test)];
     for (n, t) in tests {
         match crate::util::catch_quiet(t) {
             crate::util::Caught::Ok(Ok(())) => {}
@@ -243,4 +245,12 @@ fn mkfs_refat_test() -> Result<(), String> {
         check(refat::count_free(&fat, &v) == 2, format!("{}: free count", name))?;
     }
     Ok(())
+}
+
+/// What the crate's Debug output shows is no property of the crate: when it no longer shows the hidden cursor state,
+/// or panics, the explorers record that in the evidence and go on with a coarser state fingerprint.
+pub fn note_fingerprint_quality() {
+    if !matches!(crate::util::catch_quiet(fingerprint_test), crate::util::Caught::Ok(Ok(()))) {
+        crate::util::DEBUG_PANICKED.store(true, std::sync::atomic::Ordering::Relaxed);
+    }
 }
